@@ -246,7 +246,8 @@ def node_engine(res, work, *, node, trace_module, cfgs, consts_of, adapt, attrib
             if nontrivial is None or nontrivial(r, t):
                 nt.add(json.dumps(r["cfg"], sort_keys=True) + " ".join(r["schedule"]))
         else:
-            prop, why = attribute(r, t, got[0])
+            att = attribute(r, t, got[0])
+            prop, why, extra = att if len(att) == 3 else (att[0], att[1], [])
             evt = t[got[0] - 1] if got[0] <= len(t) else {"ev": "end"}
             if evt["ev"] == "Mutated":
                 prop = "C08" if node in ("timed_window", "partition") else "C02"
@@ -254,7 +255,7 @@ def node_engine(res, work, *, node, trace_module, cfgs, consts_of, adapt, attrib
                        "elements end up in a batch they do not belong to" % (evt["d"], evt["was"], evt["now"]))
             # a counter sequence that differs from the specification's is always a balance problem (C05); it is a
             # safety problem (C04) in addition when the callback came too early
-            also = ["C05"] if prop == "C04" else []
+            also = (["C05"] if prop == "C04" else []) + [x for x in extra if x != prop]
             if prop == "C08" and evt["ev"] in ("End", "ObsTimers", "Flush", "Tick"):
                 also = ["C02"]       # an element that is never (or twice) emitted is a loss / duplication as well
             if prop not in ("C05", "C04") and "C05" not in also:
